@@ -141,9 +141,7 @@ class PackedEncoder:
         elif isinstance(type, ArrayType):
             return int(type.size * self._get_type_length(fcp, type.underlying_type))
         elif isinstance(type, EnumType):
-            return int(
-                2 ** ceil(log2(fcp.get_enum(type.name).unwrap().get_packed_size()))
-            )
+            return int(fcp.get_enum(type.name).unwrap().get_packed_size())
         else:
             raise ValueError("Error computing type length for type " + str(type))
 
